@@ -27,7 +27,15 @@ func (e *PtrError) Error() string { return e.Msg }
 var (
 	ErrCustom  = errors.New("sim: connection reset by simulated peer")
 	ErrWrapped = fmt.Errorf("sim: read failed: %w", io.ErrClosedPipe)
+	// ErrWrappedEOF wraps io.EOF: errors.Is(err, io.EOF) holds, yet it is its own value.
+	ErrWrappedEOF = fmt.Errorf("sim: peer closed the connection: %w", io.EOF)
 )
+
+// PtrEOFError is a pointer-typed error whose Unwrap returns io.EOF.
+type PtrEOFError struct{ Msg string }
+
+func (e *PtrEOFError) Error() string { return e.Msg }
+func (e *PtrEOFError) Unwrap() error { return io.EOF }
 
 // TermErrors is the alphabet of terminal error values; index 0 is the simplest.
 func TermError(k int) error {
@@ -40,12 +48,16 @@ func TermError(k int) error {
 		return ErrCustom
 	case 3:
 		return &PtrError{"sim: pointer-typed error"}
-	default:
+	case 4:
 		return ErrWrapped
+	case 5:
+		return ErrWrappedEOF
+	default:
+		return &PtrEOFError{"sim: pointer-typed error wrapping io.EOF"}
 	}
 }
 
-const NumTermErrors = 5
+const NumTermErrors = 7
 
 // SourceCfg is the delivery profile of a Source (chosen swarm-style per run).
 type SourceCfg struct {
@@ -104,7 +116,7 @@ func RandomSourceCfg(s *Stream, n int) SourceCfg {
 		cfg.ZeroDen = []int{2, 4, 16}[s.Choose(3)]
 		cfg.ZeroMax = []int{1, 3, 8}[s.Choose(3)]
 	}
-	cfg.Err = TermError(s.Pick(6, 1, 2, 1, 1))
+	cfg.Err = TermError(s.Pick(6, 1, 2, 1, 1, 1, 1))
 	cfg.WithData = s.Pick(2, 2, 3)
 	return cfg
 }
